@@ -204,6 +204,12 @@ def pipeline_model_diff(d, tag, inst, res, impl):
     if st != "OK":
         return "driver: " + st[:200]
     model = lib.read_lines(mout)
+    # the predicate deciding whether the local-search stage runs at all (Network::maintenance_considered): model vs code
+    ci = [l.split()[1] for l in impl if l.startswith("CONSIDERED ")]
+    cm = [l.split()[1] for l in model if l.startswith("MCONSIDERED ")]
+    if ci and cm and ci[0] != cm[0]:
+        return ("the local-search stage is %s although the model's maintenance_considered is %s (slots listed: %s)"
+                % ("run" if ci[0] == "true" else "SKIPPED", cm[0], bool(inst.get("maintenanceSlots"))))
     for l in model:
         if "NOTFOUND" in l or "MODELFAIL" in l or "NEIGHPANIC" in l or "MISSING" in l.split()[-1:]:
             return "model: " + l
